@@ -62,12 +62,17 @@ CONSTANTS Names,        \* set of strings: component names
           AggVarChoices,\* subset of BOOLEAN: TRUE = the aggregate flag is given through the variable `ag`
           StageVals0,   \* subset of 0..3: value v > 0 = the stage-0 scope defines rs = v (and ag = "v is odd")
           StageVals1,   \*   "  for the stage-1 scope
+          Platforms,    \* subset of {0, 1}: the platform the workflow is loaded for: 0 = default, 1 = the platform "other"
+          PlatGlobalVals, \* subset of 0..3: value v > 0 = the GLOBAL scope of platform "other" defines rg = rs = rc = v (ag = odd(v))
+          PlatStageVals0, \* subset of 0..3: value v > 0 = the stage-0 scope of platform "other" defines rs = v (ag = odd(v))
+          PlatStageVals1, \*   "  for its stage-1 scope
           FixedNames,   \* TRUE: the i-th component built takes the i-th of the well-separated names p, q, r, s
                         \*       (shape slices: no permutations of interchangeable names)
           Emit          \* TRUE: print every expanded state as JSON for the conformance driver
 
 VARIABLES comps,    \* Seq of [name, stage, rep, agg, refs, priv, aggv]; refs: Seq of [p, sp, path, m, st]
-          svals,    \* <<v0, v1>>: what the stage-0 / stage-1 scopes define (chosen in Init, 0 = nothing)
+          svals,    \* <<v0, v1, plat, pg, ps0, ps1>> chosen in Init (0 = nothing): what the stage-0 / stage-1 scopes of the default
+                    \* platform define, the platform loaded, what platform "other" defines globally and in its two stage scopes
           phase,    \* "build" | "expanded"
           order,    \* document order of the case ("fwd" until Expand chooses)
           out       \* Expansion(comps) once expanded
@@ -75,24 +80,40 @@ rvars == <<comps, svals, phase, order, out>>
 
 ---------------------------------------------------------------------------
 (* Variables through which a replica count (rg, rs, rc) or the aggregate flag (ag) may be given, and the documented     *)
-(* scoping: a component sees its OWN variables, then those of its OWN stage, then the global ones.  Nothing a component   *)
-(* or a stage defines is visible to a sibling component, to another stage or to the global scope.                        *)
-(*   global scope:    rg = 2, rs = 3, rc = 3, ag = false                                                                 *)
-(*   stage-s scope:   rs = v and ag = odd(v) when svals[s] = v > 0 (own stage AND other stage, different values)          *)
+(* layering (the one of spec/Layering.tla, which instance() / get_component_variables implement), lowest priority first: *)
+(*     default global < default stage < selected-platform global < selected-platform stage < the component's own         *)
+(* A component sees its OWN variables, then those of its OWN stage, then the global ones; a GLOBAL definition of the      *)
+(* selected platform beats a STAGE definition of the default platform.  Nothing a component or a stage defines is visible *)
+(* to a sibling component, to another stage or to the global scope, and what platform "other" defines is invisible when   *)
+(* the workflow is loaded for the default platform (the definitions are in the document all the same: decoys).            *)
+(*   default global:  rg = 2, rs = 3, rc = 3, ag = false                                                                 *)
+(*   default stage s: rs = v and ag = odd(v) when svals[s + 1] = v > 0 (own stage AND other stage, different values)      *)
+(*   other global:    rg = rs = rc = v and ag = odd(v) when svals[4] = v > 0                                              *)
+(*   other stage s:   rs = v and ag = odd(v) when svals[5 + s] = v > 0                                                    *)
 (*   component scope: rg = rs = rc = v and ag = odd(v) when the component's priv = v > 0; a component with rep = "vc"     *)
 (*                    defines rc = 2 itself.  Siblings (same or other stage) may define other values: they must not leak. *)
 GlobalScope == [v \in {"rg", "rs", "rc"} |-> IF v = "rg" THEN 2 ELSE 3]
 StageVal(s) == svals[s + 1]
+OnOther == svals[3] = 1
+PlatGlobalVal == IF OnOther THEN svals[4] ELSE 0
+PlatStageVal(s) == IF OnOther THEN svals[5 + s] ELSE 0
 StageScope(s) == IF StageVal(s) > 0 THEN [v \in {"rs"} |-> StageVal(s)] ELSE [v \in {} |-> 0]
+PlatGlobalScope == IF PlatGlobalVal > 0 THEN [v \in {"rg", "rs", "rc"} |-> PlatGlobalVal] ELSE [v \in {} |-> 0]
+PlatStageScope(s) == IF PlatStageVal(s) > 0 THEN [v \in {"rs"} |-> PlatStageVal(s)] ELSE [v \in {} |-> 0]
 CompScope(rep, pv) == [v \in (IF pv > 0 THEN {"rg", "rs", "rc"} ELSE {}) \cup (IF rep = "vc" THEN {"rc"} ELSE {}) |->
                          IF v = "rc" /\ rep = "vc" THEN 2 ELSE pv]
 VarOf(rep) == CASE rep = "vg" -> "rg" [] rep = "vs" -> "rs" [] rep = "vc" -> "rc"
 Lookup(v, s, rep, pv) == IF v \in DOMAIN CompScope(rep, pv) THEN CompScope(rep, pv)[v]
+                         ELSE IF v \in DOMAIN PlatStageScope(s) THEN PlatStageScope(s)[v]
+                         ELSE IF v \in DOMAIN PlatGlobalScope THEN PlatGlobalScope[v]
                          ELSE IF v \in DOMAIN StageScope(s) THEN StageScope(s)[v]
                          ELSE GlobalScope[v]
 Odd(v) == v % 2 = 1
-(* the value of the variable `ag` a component of stage s with private value pv sees *)
-AgLookup(s, pv) == IF pv > 0 THEN Odd(pv) ELSE IF StageVal(s) > 0 THEN Odd(StageVal(s)) ELSE FALSE
+(* the value of the variable `ag` a component of stage s with private value pv sees (same layering) *)
+AgLookup(s, pv) == IF pv > 0 THEN Odd(pv)
+                   ELSE IF PlatStageVal(s) > 0 THEN Odd(PlatStageVal(s))
+                   ELSE IF PlatGlobalVal > 0 THEN Odd(PlatGlobalVal)
+                   ELSE IF StageVal(s) > 0 THEN Odd(StageVal(s)) ELSE FALSE
 
 (* replica count a component asks for itself; 0 = none *)
 OwnCount(c) == CASE c.rep = "none" -> 0
@@ -105,7 +126,8 @@ OwnCount(c) == CASE c.rep = "none" -> 0
 ---------------------------------------------------------------------------
 (* Building the workflow *)
 Init == /\ comps = <<>>
-        /\ svals \in {<<v0, v1>> : v0 \in StageVals0, v1 \in StageVals1}
+        /\ svals \in {<<v0, v1, pl, pg, p0, p1>> : v0 \in StageVals0, v1 \in StageVals1, pl \in Platforms,
+                                                   pg \in PlatGlobalVals, p0 \in PlatStageVals0, p1 \in PlatStageVals1}
         /\ phase = "build"
         /\ order = "fwd"
         /\ out = [status |-> "none", nodes |-> <<>>]
